@@ -24,7 +24,7 @@ CHECKS = {
  "C06": ("exploration", "exhaustive identity-code enumeration (8192 x DF5/DF21) x proptest contexts against an octal-digit reference + proptest histories of foreign frames + proptest reply sequences (codes from a small pool, latest reply wins after every step)",
          "complete over the code dimension; history invariants 'no other format changes the squawk' and 'the latest DF5/DF21 reply wins'",
          "identity code layout per Annex 10", "DESIGN.md §6 C06"),
- "C07": ("exploration", "exhaustive position x character-code grid and TC x CA grid + proptest strings / BDS 2,0 gate states against a character-table reference, incl. the printed W and CALLSIGN cells",
+ "C07": ("exploration", "exhaustive position x character-code grid and TC x CA grid + proptest strings / BDS 2,0 gate states against a character-table reference, incl. the printed W and CALLSIGN cells + proptest callsign report sequences (squitter / BDS 2,0 mix, strings from a small pool, latest report wins after every step)",
          "grid complete; contexts generated; rendered cells read from captured Planes::print output",
          "blank vs empty callsign not distinguished", "DESIGN.md §6 C07"),
  "C09": ("exploration", "axis-exhaustive velocity magnitudes, boundary grid, all vertical-rate codes + proptest combinations (thorough: full component grid) against a closed-form reference, create/update paths, -U/-R",
